@@ -24,28 +24,32 @@ use crate::runner::{Case, Engine, Outcome, Tier};
 
 pub struct Net;
 
-/// Message payload with instance counting: `P_LIVE` = instances created (new / clone) minus instances dropped.
-pub static P_LIVE: std::sync::atomic::AtomicIsize = std::sync::atomic::AtomicIsize::new(0);
+/// Message payload with instance counting: the counter (instances created by new / clone / map minus instances
+/// dropped) belongs to the case that created the message, so that a computation abandoned by an earlier case (step
+/// time-out) cannot disturb the balance of the current one.
+pub type Live = Arc<std::sync::atomic::AtomicIsize>;
 #[derive(Debug)]
-pub struct P(pub u128);
+pub struct P(pub u128, Live);
 impl P {
-    fn new(v: u128) -> P {
-        P_LIVE.fetch_add(1, Ordering::SeqCst);
-        P(v)
+    fn new(v: u128, live: &Live) -> P {
+        live.fetch_add(1, Ordering::SeqCst);
+        P(v, live.clone())
+    }
+    /// a message derived from this one by a connection's map
+    fn derive(&self, v: u128) -> P {
+        P::new(v, &self.1)
     }
 }
 impl Clone for P {
     fn clone(&self) -> P {
-        P::new(self.0)
+        P::new(self.0, &self.1)
     }
 }
 impl Drop for P {
     fn drop(&mut self) {
-        P_LIVE.fetch_sub(1, Ordering::SeqCst);
+        self.1.fetch_sub(1, Ordering::SeqCst);
     }
 }
-/// number of times the model with a given index was dropped
-static NODE_DROPS: Mutex<Vec<usize>> = Mutex::new(Vec::new());
 
 #[derive(Clone, Debug)]
 enum Rec {
@@ -64,6 +68,10 @@ struct Shared {
     overlap: AtomicBool,
     names: Mutex<Vec<String>>,
     ctx_names: Mutex<Vec<(usize, String)>>,
+    /// number of times the model with a given index was dropped
+    node_drops: Mutex<Vec<usize>>,
+    /// live message instances of this case
+    live: Live,
 }
 
 #[derive(Clone, Debug)]
@@ -111,7 +119,7 @@ struct Node {
 
 impl Drop for Node {
     fn drop(&mut self) {
-        let mut d = NODE_DROPS.lock().unwrap();
+        let mut d = self.sh.node_drops.lock().unwrap();
         if d.len() <= self.id {
             d.resize(self.id + 1, 0);
         }
@@ -130,13 +138,13 @@ impl Node {
             self.sh.log.lock().unwrap().push(Rec::Sent(self.id, payload, k, child, op.query));
             if op.query {
                 if let Some(r) = self.reqs.get_mut(&op.port) {
-                    let replies: Vec<u128> = r.send(P::new(child)).await.collect();
+                    let replies: Vec<u128> = r.send(P::new(child, &self.sh.live)).await.collect();
                     if !replies.is_empty() {
                         self.sh.log.lock().unwrap().push(Rec::Reply(self.id, payload, replies));
                     }
                 }
             } else if let Some(o) = self.outs.get_mut(&op.port) {
-                o.send(P::new(child)).await;
+                o.send(P::new(child, &self.sh.live)).await;
             }
         }
     }
@@ -495,10 +503,10 @@ fn build(specs: &[ModelSpec], srcs_spec: &BTreeMap<usize, Vec<ConnSpec>>, timeou
                     if fm == 0 && add == 0 {
                         r.connect(Node::replier, &addrs[c.dst]);
                     } else if fm == 0 {
-                        r.map_connect(move |x: &P| P::new(x.0 + add), |y: u128| y, Node::replier, &addrs[c.dst]);
+                        r.map_connect(move |x: &P| x.derive(x.0 + add), |y: u128| y, Node::replier, &addrs[c.dst]);
                     } else {
                         r.filter_map_connect(
-                            move |x: &P| if x.0 % fm == fr { Some(P::new(x.0 + add)) } else { None },
+                            move |x: &P| if x.0 % fm == fr { Some(x.derive(x.0 + add)) } else { None },
                             |y: u128| y,
                             Node::replier,
                             &addrs[c.dst],
@@ -515,17 +523,17 @@ fn build(specs: &[ModelSpec], srcs_spec: &BTreeMap<usize, Vec<ConnSpec>>, timeou
                         if fm == 0 && add == 0 {
                             o.connect_sink(sink);
                         } else if fm == 0 {
-                            o.map_connect_sink(move |x: &P| P::new(x.0 + add), sink);
+                            o.map_connect_sink(move |x: &P| x.derive(x.0 + add), sink);
                         } else {
-                            o.filter_map_connect_sink(move |x: &P| if x.0 % fm == fr { Some(P::new(x.0 + add)) } else { None }, sink);
+                            o.filter_map_connect_sink(move |x: &P| if x.0 % fm == fr { Some(x.derive(x.0 + add)) } else { None }, sink);
                         }
                     } else if fm == 0 && add == 0 {
                         o.connect(Node::input, &addrs[c.dst]);
                     } else if fm == 0 {
-                        o.map_connect(move |x: &P| P::new(x.0 + add), Node::input, &addrs[c.dst]);
+                        o.map_connect(move |x: &P| x.derive(x.0 + add), Node::input, &addrs[c.dst]);
                     } else {
                         o.filter_map_connect(
-                            move |x: &P| if x.0 % fm == fr { Some(P::new(x.0 + add)) } else { None },
+                            move |x: &P| if x.0 % fm == fr { Some(x.derive(x.0 + add)) } else { None },
                             Node::input,
                             &addrs[c.dst],
                         );
@@ -568,9 +576,9 @@ fn build(specs: &[ModelSpec], srcs_spec: &BTreeMap<usize, Vec<ConnSpec>>, timeou
             if fm == 0 && add == 0 {
                 src.connect(Node::input, &addrs[c.dst]);
             } else if fm == 0 {
-                src.map_connect(move |x: &P| P::new(x.0 + add), Node::input, &addrs[c.dst]);
+                src.map_connect(move |x: &P| x.derive(x.0 + add), Node::input, &addrs[c.dst]);
             } else {
-                src.filter_map_connect(move |x: &P| if x.0 % fm == fr { Some(P::new(x.0 + add)) } else { None }, Node::input, &addrs[c.dst]);
+                src.filter_map_connect(move |x: &P| if x.0 % fm == fr { Some(x.derive(x.0 + add)) } else { None }, Node::input, &addrs[c.dst]);
             }
         }
         srcs.insert(*sid, src);
@@ -789,9 +797,7 @@ impl Engine for Net {
         let mut fatal_seen = false;
         let mut dropped = false;
         let mut timeout_seen = false;
-        NODE_DROPS.lock().unwrap().clear();
         let base_threads = thread_count();
-        let p_live0 = P_LIVE.load(Ordering::SeqCst);
         for l in lines {
             let w: Vec<&str> = l.split_whitespace().collect();
             let log_start = sh.log.lock().unwrap().len();
@@ -891,13 +897,13 @@ impl Engine for Net {
                     let sid: usize = sid.parse().unwrap();
                     let res = match b.srcs.get_mut(&sid) {
                         Some(src) => {
-                            let action = src.event(P::new(p.parse::<u128>().unwrap()));
+                            let action = src.event(P::new(p.parse::<u128>().unwrap(), &sh.live));
                             b.sim.process(action)
                         }
                         None => {
                             // a source without any connection: the action does nothing (but is still refused after a fatal error)
                             let mut empty = nexosim::ports::EventSource::<P>::new();
-                            b.sim.process(empty.event(P::new(p.parse::<u128>().unwrap())))
+                            b.sim.process(empty.event(P::new(p.parse::<u128>().unwrap(), &sh.live)))
                         }
                     };
                     let recs = sh.log.lock().unwrap()[log_start..].to_vec();
@@ -923,7 +929,7 @@ impl Engine for Net {
                     let b = bench.as_mut().unwrap();
                     let j: usize = j.parse().unwrap();
                     let addr = b.addrs[j].clone();
-                    let res = b.sim.process_event(Node::input, P::new(p.parse::<u128>().unwrap()), &addr);
+                    let res = b.sim.process_event(Node::input, P::new(p.parse::<u128>().unwrap(), &sh.live), &addr);
                     let recs = sh.log.lock().unwrap()[log_start..].to_vec();
                     any_err |= res.is_err();
                     let rs = res.as_ref().map(|_| "ok".to_string()).unwrap_or_else(|e| exec_err(e));
@@ -933,7 +939,7 @@ impl Engine for Net {
                     let b = bench.as_mut().unwrap();
                     let j: usize = j.parse().unwrap();
                     let addr = b.addrs[j].clone();
-                    let res = b.sim.process_query(Node::replier, P::new(p.parse::<u128>().unwrap()), &addr);
+                    let res = b.sim.process_query(Node::replier, P::new(p.parse::<u128>().unwrap(), &sh.live), &addr);
                     let recs = sh.log.lock().unwrap()[log_start..].to_vec();
                     any_err |= res.is_err();
                     let (rs, extra) = match &res {
@@ -984,7 +990,7 @@ impl Engine for Net {
                     let j: usize = j.parse().unwrap();
                     let addr = b.addrs[j].clone();
                     let d = std::time::Duration::from_secs(secs.parse::<u64>().unwrap().max(1));
-                    match b.sched.schedule_event(d, Node::input, P::new(p.parse::<u128>().unwrap()), &addr) {
+                    match b.sched.schedule_event(d, Node::input, P::new(p.parse::<u128>().unwrap(), &sh.live), &addr) {
                         Ok(()) => "ok".into(),
                         Err(_) => "rejected".into(),
                     }
@@ -1025,7 +1031,7 @@ impl Engine for Net {
                         std::thread::sleep(std::time::Duration::from_millis(5));
                         threads_now = thread_count();
                     }
-                    let drops = NODE_DROPS.lock().unwrap().clone();
+                    let drops = sh.node_drops.lock().unwrap().clone();
                     let once = (0..specs.len()).filter(|i| specs[*i].sim && drops.get(*i).copied().unwrap_or(0) == 1).count();
                     let bad: Vec<String> = (0..specs.len())
                         .filter(|i| specs[*i].sim && drops.get(*i).copied().unwrap_or(0) != 1)
@@ -1033,7 +1039,7 @@ impl Engine for Net {
                         .collect();
                     drop(_orphans);
                     drop(sinks);
-                    let leaked = P_LIVE.load(Ordering::SeqCst) - p_live0;
+                    let leaked = sh.live.load(Ordering::SeqCst);
                     std::thread::sleep(std::time::Duration::from_millis(2));
                     let ran_after = sh.log.lock().unwrap().len() != handled_before;
                     let excluded = timeout_seen;
